@@ -560,7 +560,12 @@ def r02_9(ctx):
         elif has("LIMITED_QUIRKY_PUBLIC_PREFIXES", True):
             exp = "LimitedQuirks"
         elif has("HTML4_PUBLIC_PREFIXES", True):
-            exp = "Quirks" if (has("system_id.map(|..|{a1.to_ascii_lowercase()}) matches None", True) or has("system_id.map(|..|{a1.to_ascii_lowercase()}) matches Some(_)", False)) else "LimitedQuirks"
+            sysg = [(re.sub(r"#\d+$", "", k).split(" matches ", 1)[1], v) for k, v in g.items() if re.match(r"p1\.system_id[^,]* matches ", k) and "QUIRKY" not in k]
+            odd = [a for a, v in sysg if a not in ("None", "Some(_)")]
+            if odd:
+                ctx.ob("R02.9", "quirks-html401-system-id", False, "for the HTML 4.01 Transitional / Frameset public identifiers the code tests the system identifier against %s; the standard asks only whether it is MISSING (an empty identifier is present)" % odd[0][:40],
+                       "html5ever/src/tree_builder/data.rs doctype_error_and_quirks")
+            exp = "Quirks" if any((a == "None" and v is True) or (a == "Some(_)" and v is False) for a, v in sysg) else "LimitedQuirks"
         else:
             exp = "NoQuirks"
         facts += 1
@@ -701,7 +706,7 @@ def r02_8(ctx):
     ctx.floor("R02.8", "insertion-modes", len(modes), 21)
 
 
-def r02_13(ctx):
+def r02_13(ctx, rule="R02.13"):
     """the tree builder's notion of whitespace is the standard's ASCII whitespace - TAB, LF, FF, CR, SPACE - wherever it splits or
     classifies character tokens (`any_not_whitespace`, the whitespace-run split of process_to_completion)"""
     from . import predtable as pt
@@ -718,10 +723,10 @@ def r02_13(ctx):
             n += 1
             ws = s if 32 in s else set(range(256)) - s
             ok = ws == pt.ASCII_WHITESPACE
-            ctx.ob("R02.13", "whitespace-set/%s" % fname, ok, "the predicate classifies exactly TAB LF FF CR SPACE as whitespace" if ok else
+            ctx.ob(rule, "whitespace-set/%s" % fname, ok, "the predicate classifies exactly TAB LF FF CR SPACE as whitespace" if ok else
                    "whitespace is taken to be %s; the standard's ASCII whitespace is %s (missing %s, extra %s): such a character is foster-parented / clears frameset-ok / splits a text token differently" % (
                        sorted(ws)[:8], sorted(pt.ASCII_WHITESPACE), sorted(pt.ASCII_WHITESPACE - ws), sorted(ws - pt.ASCII_WHITESPACE)[:5]), "html5ever tree_builder " + fname)
-    ctx.floor("R02.13", "whitespace-predicates", n, 2)
+    ctx.floor(rule, "whitespace-predicates", n, 2)
 
 
 def foreign_end_tag_stops_at_html(ctx, rule):
@@ -761,6 +766,8 @@ def r02_14(ctx):
 
 
 def run(ctx):
+    from . import tbhelpers
+    tbhelpers.run(ctx)
     ctx.guard("R02.12", "foreign-end-html", lambda: foreign_end_tag_stops_at_html(ctx, "R02.12"))
     ctx.rule("R02.14", "a fragment's context element switches the tokenizer out of the data state only if it is an HTML element")
     ctx.guard("R02.14", "context-state", lambda: r02_14(ctx))
